@@ -102,6 +102,12 @@ def probe_projects():
     for ra in RENAME_ALL:
         add("struct-rename_all", ra, ra, rg.struct_src("Item", [("user_id", "i32"), ("http_status2", "String"), ("x", "bool")], rename_all=ra) + base_cmd())
         add("enum-rename_all", ra, ra, rg.enum_src("Kind", [("FirstValue",), ("HTTPError",), ("X",)], rename_all=ra) + rg.struct_src("Item", [("k", "Kind")]) + base_cmd())
+    # --- degenerate declarations: nothing between the braces
+    empties = ("#[derive(Serialize, Deserialize)]\npub enum Never {}\n\n#[derive(Serialize, Deserialize)]\npub struct Nothing {}\n\n#[derive(Serialize, Deserialize)]\npub struct Unit;\n\n"
+               "#[derive(Serialize, Deserialize)]\npub struct AllSkipped {\n    #[serde(skip)]\n    pub a: i32,\n}\n\n")
+    for k, ty in enumerate(("Never", "Nothing", "Unit", "AllSkipped")):
+        add("empty-declaration", ty, ty, empties + rg.struct_src("Item", [("v", "Option<%s>" % ty), ("list", "Vec<%s>" % ty)]) + rg.command_src("get_item", [("p", ty)], "Option<%s>" % ty) +
+            "use tauri::{AppHandle, Emitter};\npub fn note(app: AppHandle, x: %s) {\n    app.emit(\"empty-%d\", x).unwrap();\n}\n" % (ty, k))
     # --- identifiers that are JS reserved words but legal Rust
     for w in RESERVED_RUST_OK:
         add("command-name", "reserved-word", w, rg.struct_src("Item", [("a", "i32")]) + rg.command_src(w, [("id", "i32")], "Item"))
